@@ -463,9 +463,27 @@ func cmdSchedRecOverlap(o *Out, line string, f []string) {
 // batch collector) used by G workers (AddEvent) while observers call Resolve, Info and SetMetadata - starting on the
 // EMPTY collector, so that the first Resolve calls fail while writers queue up.  No call blocks (the watchdog of the
 // isolated child turns a deadlock into `hang`), and every event is persisted.
+// flakyResolve: an ftdc collector whose Resolve fails while `failing` is set
+type flakyResolve struct {
+	ftdc.Collector
+	failing int32
+}
+
+func (c *flakyResolve) Resolve() ([]byte, error) {
+	if atomic.LoadInt32(&c.failing) != 0 {
+		return nil, fmt.Errorf("scripted Resolve failure")
+	}
+	return c.Collector.Resolve()
+}
+
 func cmdConcEvents(o *Out, line string, f []string) {
 	G, M, obsN := int(atoi64(f[0])), int(atoi64(f[1])), int(atoi64(f[2]))
-	inner := ftdc.NewBatchCollector(50)
+	// in every other case the wrapped collector's Resolve FAILS for the whole concurrent phase (a collector that cannot
+	// render right now): every observer Resolve takes the error path while writers are queueing for the lock
+	inner := &flakyResolve{Collector: ftdc.NewBatchCollector(50)}
+	if len(f) > 3 && atoi64(f[3])%2 == 1 {
+		atomic.StoreInt32(&inner.failing, 1)
+	}
 	c := events.NewSynchronizedCollector(events.NewBasicCollector(inner))
 	var wg, owg sync.WaitGroup
 	stop := make(chan struct{})
@@ -511,6 +529,7 @@ func cmdConcEvents(o *Out, line string, f []string) {
 	wg.Wait()
 	close(stop)
 	owg.Wait()
+	atomic.StoreInt32(&inner.failing, 0)
 	n := -1
 	var last int64 = -1
 	if out, err := c.Resolve(); err == nil {
